@@ -6,7 +6,7 @@ for d in /verif/seeded/*/; do
   T=/tmp/seed-$n; rm -rf $T; mkdir -p $T; cp -r /repo/src $T/src
   if ! (cd $T && patch -p1 -s --dry-run < $d/patch.diff >/dev/null 2>&1); then echo "$n $prop NOAPPLY"; rm -rf $T; continue; fi
   (cd $T && patch -p1 -s < $d/patch.diff)
-  out=$(MQTT_SRC=$T/src ./check $prop --tier quick 2>&1); rc=$?
+  out=$(VERIF_SCRATCH=$T/v MQTT_SRC=$T/src ./check $prop --tier quick 2>&1); rc=$?
   rm -rf $T
   echo "$n $prop rc=$rc $(echo "$out" | grep -m1 '^trace\|^record' | cut -c1-120)"
 done
